@@ -6,7 +6,10 @@ FREQ=DAILY|WEEKLY with INTERVAL and COUNT|UNTIL|unbounded; EXDATE; DUE/COMPLETED
 time ranges placed at, one second before and one second after every boundary: (a) `comp_match` on the parsed
 item, (b) calendar-query REPORTs through the application, each also with an always-true condition before and
 after the time-range (which switches the storage's pre-selection shortcut off), against the model; the oracle
-is the RFC predicate evaluated on an independently computed occurrence set.
+is the RFC predicate evaluated on an independently computed occurrence set.  (c) free-busy REPORTs on calendars of
+1-3 events (TRANSP / STATUS variants, occurrence limits 4, 7, 10000): the VFREEBUSY periods must be exactly the
+overlapping occurrences of the opaque events (theorem `freebusy_exact`), or the report refused when one event reaches
+the limit.
 """
 import datetime as dtm
 import xml.etree.ElementTree as ET
@@ -387,6 +390,113 @@ F9_TEXT = ("BEGIN:VCALENDAR\r\nVERSION:2.0\r\nPRODID:-//verif//EN\r\n"
            "DTSTART:20240105T120000Z\r\nDTEND:20240105T080000Z\r\nSUMMARY:o\r\nEND:VEVENT\r\nEND:VCALENDAR\r\n")
 
 
+def ev_range(o, s):
+    """the (start, end) the visitor passes on for the occurrence at s of a VEVENT (RFC lines 1-5)"""
+    if o["end"] == "dtend":
+        return (s, s + o["dur"])
+    if o["end"] == "duration":
+        return (s, s + o["dur"]) if o["dur"] > 0 else (s, s + 1)
+    return (s, s + 1) if o["datetime"] else (s, s + DAY)
+
+
+def parse_freebusy(text):
+    out = []
+    cur = None
+    for line in text.replace("\r\n", "\n").split("\n"):
+        if line == "BEGIN:VFREEBUSY":
+            cur = {}
+        elif line == "END:VFREEBUSY" and cur is not None:
+            out.append((cur.get("DTSTART"), cur.get("DTEND"), cur.get("FBTYPE")))
+            cur = None
+        elif cur is not None and ":" in line:
+            k, v = line.split(":", 1)
+            k = k.split(";")[0]
+            if k in ("DTSTART", "DTEND"):
+                d = dtm.datetime.strptime(v, "%Y%m%dT%H%M%SZ").replace(tzinfo=dtm.timezone.utc)
+                cur[k] = int(d.timestamp())
+            elif k == "FBTYPE":
+                cur[k] = v
+    return sorted(out, key=lambda x: (x[0], x[1], x[2] or ""))
+
+
+FBTYPE = {None: "BUSY", "CONFIRMED": "BUSY", "CANCELLED": "FREE", "TENTATIVE": "BUSY-TENTATIVE", "X-OTHER": "BUSY"}
+
+
+def freebusy_level(ctx):
+    """free-busy report = every overlapping occurrence of every opaque event, with its start and end"""
+    rng = ctx.rng("freebusy")
+    n = ctx.n(60, 2500)
+    idx = 0
+    for i in range(n):
+        max_occ = rng.choice([10000, 10000, 4, 7])
+        with App({"auth": {"type": "none"}, "reporting": {"max_freebusy_occurrence": str(max_occ)}}) as app:
+            app.request("MKCALENDAR", "/u/fb/", login="u:pw")
+            objs = []
+            for _ in range(rng.randint(1, 3)):
+                idx += 1
+                o = gen_object(rng, idx)
+                while o["kind"] != "VEVENT":
+                    idx += 1
+                    o = gen_object(rng, idx)
+                transp = rng.choice([None, None, "OPAQUE", "TRANSPARENT"])
+                status = rng.choice([None, None, "CONFIRMED", "CANCELLED", "TENTATIVE"])
+                extra = ("TRANSP:%s\r\n" % transp if transp else "") + ("STATUS:%s\r\n" % status if status else "")
+                o["text"] = o["text"].replace("SUMMARY:x\r\n", extra + "SUMMARY:x\r\n")
+                o["opaque"] = transp != "TRANSPARENT"
+                o["status"] = status
+                st, _, _ = app.request("PUT", "/u/fb/%s.ics" % o["uid"], o["text"], login="u:pw", CONTENT_TYPE="text/calendar")
+                if st == 201:
+                    objs.append(o)
+            if not objs:
+                continue
+            for fs, fe in gen_ranges(rng, rng.choice(objs), 4):
+                if fs is None or fe is None:
+                    continue
+                body = ('<?xml version="1.0"?><C:free-busy-query xmlns:C="urn:ietf:params:xml:ns:caldav"><C:time-range start="%s" end="%s"/>'
+                        '</C:free-busy-query>' % (fmt_dt(fs), fmt_dt(fe)))
+                st, _, text = app.request("REPORT", "/u/fb/", body, login="u:pw")
+                # oracle, per event
+                expect = []
+                refused = False
+                for o in objs:
+                    if not o["opaque"]:
+                        continue
+                    hits = [ev_range(o, s) for s in occ_for(o, fe)]
+                    hits = [(a, b) for a, b in hits if fs < b and a < fe]
+                    if len(hits) >= max_occ:
+                        refused = True
+                    expect += [(a, b, FBTYPE[o["status"]]) for a, b in hits]
+                expect.sort(key=lambda x: (x[0], x[1], x[2] or ""))
+                case = {"objects": [o["text"] for o in objs], "range": [fs, fe], "max_freebusy_occurrence": max_occ, "status": st}
+                ctx.case("freebusy:%s" % ("refused" if refused else "listed"), sample=dict(case, periods=len(expect)), key=[i, fs, fe],
+                         nontrivial=bool(expect))
+                if refused:
+                    if st == 200:
+                        ctx.violation("free-busy report answered although an event has %d or more occurrences in the range" % max_occ, case)
+                    got = None
+                else:
+                    if st != 200:
+                        ctx.violation("free-busy report refused with %d" % st, case)
+                        continue
+                    got = parse_freebusy(text)
+                    if got != expect:
+                        ctx.violation("free-busy report lists %s, the overlapping occurrences of opaque events are %s" % (got[:6], expect[:6]), case)
+                # the model, per event
+                if ctx.driver:
+                    reqs = []
+                    for o in objs:
+                        r = model_req(o, fs, fe)
+                        r.update(op="freebusy", opaque=o["opaque"], max=max_occ)
+                        reqs.append(r)
+                    ans = ctx.driver.ask(reqs)
+                    m_ref = any(a["fb"] is None for a in ans)
+                    m_list = None if m_ref else sorted([(p[0], p[1], FBTYPE[o["status"]]) for o, a in zip(objs, ans) for p in a["fb"]],
+                                                       key=lambda x: (x[0], x[1], x[2] or ""))
+                    if (m_ref, m_list) != (st != 200, got):
+                        ctx.disagree("free-busy report vs model", case, {"refused": st != 200, "periods": got and got[:6]},
+                                     {"refused": m_ref, "periods": m_list and m_list[:6]})
+
+
 def known_witnesses(ctx):
     """F9: an override whose DTEND lies before its DTSTART (outside the property's grammar, accepted by the server)"""
     with App({"auth": {"type": "none"}}) as app:
@@ -420,3 +530,4 @@ def run(ctx):
                     "integer seconds, UTC or DATE values"]
     function_level(ctx)
     end_to_end(ctx)
+    freebusy_level(ctx)
